@@ -73,6 +73,31 @@ class RandomStrategy(object):
         return self.rng.randrange(len(opts))
 
 
+class PCTStrategy(object):
+    """Probabilistic concurrency testing (Burckhardt et al.): random thread priorities, the highest-priority enabled thread
+    runs; at d-1 random change points the running thread's priority drops below all others.  Finds a bug of depth d with
+    probability >= 1/(n * k^(d-1))."""
+
+    def __init__(self, rng, depth=2, expected_points=300):
+        self.rng = rng
+        self.prio = {}
+        self.low = 0
+        self.change_points = set(rng.randrange(expected_points) for _ in range(max(0, depth - 1)))
+
+    def _p(self, opt):
+        key = (opt[0], opt[1].id)
+        if key not in self.prio:
+            self.prio[key] = self.rng.random() + (0.0 if opt[0] == 'run' else -0.5)   # timer firings are less eager
+        return self.prio[key]
+
+    def choose(self, i, opts, cur_idx):
+        if i in self.change_points and cur_idx is not None:
+            self.low -= 1
+            self.prio[(opts[cur_idx][0], opts[cur_idx][1].id)] = self.low
+        best = max(range(len(opts)), key=lambda j: self._p(opts[j]))
+        return best
+
+
 class Scheduler(object):
     def __init__(self, targets, strategy, max_fires=2, step_budget=20000):
         self.targets = set(targets)
@@ -485,10 +510,25 @@ def explore_dfs(make, targets, K, on_run, max_runs=None, max_fires=2, step_budge
     return runs, complete
 
 
+def strategy_from(desc):
+    import random as _r
+    desc = list(desc) if desc else []
+    if not desc or not isinstance(desc[0], str):
+        return PrefixStrategy(desc)
+    if desc[0] == 'random':
+        return RandomStrategy(_r.Random(desc[1]), desc[2])
+    if desc[0] == 'pct':
+        return PCTStrategy(_r.Random(desc[1]), desc[2], desc[3])
+    return PrefixStrategy(desc)
+
+
 def explore_random(make, targets, n, rng, on_run, p_switch=0.15, max_fires=2, step_budget=20000):
-    for _ in range(n):
-        import random as _r
+    """Half uniform-random switching, half PCT with depth 2-3."""
+    for k in range(n):
         seed = rng.randrange(1 << 30)
-        p = rng.choice([0.05, p_switch, 0.4])
-        rec = run_once(make, RandomStrategy(_r.Random(seed), p), targets, max_fires=max_fires, step_budget=step_budget)
-        on_run(rec, ('random', seed, p))
+        if k % 2 == 0:
+            desc = ('random', seed, rng.choice([0.05, p_switch, 0.4]))
+        else:
+            desc = ('pct', seed, rng.choice([2, 2, 3]), rng.choice([60, 200, 500]))
+        rec = run_once(make, strategy_from(desc), targets, max_fires=max_fires, step_budget=step_budget)
+        on_run(rec, desc)
